@@ -1,6 +1,265 @@
+import Model.FrameSpec
+import Model.FrameWrite
 import Driver.Util
 namespace Driver.C03
-/-- placeholder: replaced when the property's model is built -/
-def step (_ : Unit) (_ : List String) : Unit × String := ((), "unimplemented")
+open Util FrameSpec FrameWrite
+
+/-!
+ops (one line, words separated by blanks; bytes as hex, "-" = empty):
+
+  enc <v> <tracing 0|1> <stream> REQ          → hex of the frame the MODEL of the builders produces,
+                                                 or rejected:<payload|keyspace|namedbatch|toobig>
+  encd <v> <tracing> <stream> REQ         → same, answered by a digest `len=<n> head=<first 40 bytes> fnv=<FNV-1a 32>`
+                                                 (for very large frames; REQ may use the compact forms
+                                                 `x<n>*<hh>` = n copies of byte hh, and `*<n> ITEM` = n copies
+                                                 of one ITEM in place of `<n> ITEM...` for values / events /
+                                                 batch entries)
+  dec <framehex> <v> <tracing> <stream> REQ   → the SPEC DECODER is run on <framehex> (the bytes the real
+                                                 builder produced for REQ): `ok` if it yields exactly
+                                                 (v, tracing, stream, ask REQ, no rest) — maps compared as
+                                                 maps —, `inexpressible` if REQ cannot be expressed in v,
+                                                 `mismatch:<what>` otherwise
+
+  REQ     := startup <n> (<k> <v>)*  |  options  |  auth OPTB  |  register <n> <hex>*
+           | query <stmt> PARAMS PAYLOAD  |  prepare <stmt> <keyspace> PAYLOAD
+           | execute <id> PARAMS PAYLOAD
+           | batch <typ> <cons> <serial> <dts 0|1> <ts> <n> (<id> <stmt> VALUES)* PAYLOAD
+  PARAMS  := <cons> <skipmeta 0|1> <pagesize> <pagingstate> <serial> <dts 0|1> <ts> <keyspace> VALUES
+  VALUES  := <n> (<name> VALTOK)*          name "-" = positional
+  VALTOK  := n (nil → null) | u (unset) | v<hex>
+  PAYLOAD := <n> (<key> OPTB)*             in the iteration order of the Go map
+  OPTB    := n | v<hex>
+-/
+
+abbrev P (α : Type) := List String → Option (α × List String)
+
+def pWord : P String
+  | w :: r => some (w, r)
+  | [] => none
+
+def pNat : P Nat
+  | w :: r => match w.toNat? with | some n => some (n, r) | none => none
+  | [] => none
+
+def pInt : P Int
+  | w :: r => match w.toInt? with | some n => some (n, r) | none => none
+  | [] => none
+
+def pBool : P Bool
+  | "0" :: r => some (false, r)
+  | "1" :: r => some (true, r)
+  | _ => none
+
+/-- hex, or `x<n>*<hh>` = n copies of the byte hh -/
+def parseHexX (w : String) : Option Bytes :=
+  match w.toList with
+  | 'x' :: cs =>
+    match (String.ofList cs).splitOn "*" with
+    | [n, hh] =>
+      match n.toNat?, parseHex hh with
+      | some k, some [b] => some (List.replicate k b)
+      | _, _ => none
+    | _ => none
+  | _ => parseHex w
+
+def pHex : P Bytes
+  | w :: r => match parseHexX w with | some b => some (b, r) | none => none
+  | [] => none
+
+def pOptB : P (Option Bytes)
+  | w :: r =>
+    if w == "n" then some (none, r)
+    else match w.toList with
+      | 'v' :: cs => match parseHexX (String.ofList cs) with | some b => some (some b, r) | none => none
+      | _ => none
+  | [] => none
+
+def pRep {α : Type} (p : P α) : Nat → P (List α)
+  | 0, ws => some ([], ws)
+  | n + 1, ws =>
+    match p ws with
+    | some (x, r) => match pRep p n r with
+      | some (xs, r') => some (x :: xs, r')
+      | none => none
+    | none => none
+
+/-- `<n> item*n`, or `*<n> item` = n copies of the item -/
+def pCounted {α : Type} (p : P α) : P (List α) := fun ws =>
+  match ws with
+  | w :: r =>
+    match w.toList with
+    | '*' :: cs =>
+      match (String.ofList cs).toNat? with
+      | some n => match p r with
+        | some (x, r') => some (List.replicate n x, r')
+        | none => none
+      | none => none
+    | _ => match pNat ws with
+      | some (n, r) => pRep p n r
+      | none => none
+  | [] => none
+
+def pVal : P GVal := fun ws =>
+  match pHex ws with
+  | some (nm, w :: r) =>
+    if w == "u" then some (⟨nm, true, none⟩, r)
+    else match pOptB (w :: r) with
+      | some (ob, r') => some (⟨nm, false, ob⟩, r')
+      | none => none
+  | _ => none
+
+def pValues : P (List GVal) := pCounted pVal
+
+def pKV : P (Bytes × Bytes) := fun ws =>
+  match pHex ws with
+  | some (k, r) => match pHex r with
+    | some (v, r') => some ((k, v), r')
+    | none => none
+  | none => none
+
+def pKOB : P (Bytes × Option Bytes) := fun ws =>
+  match pHex ws with
+  | some (k, r) => match pOptB r with
+    | some (v, r') => some ((k, v), r')
+    | none => none
+  | none => none
+
+def pPayload : P GPayload := pCounted pKOB
+
+def pParams : P GParams := fun ws => do
+  let (cons, r) ← pNat ws
+  let (skip, r) ← pBool r
+  let (ps, r) ← pInt r
+  let (pst, r) ← pHex r
+  let (ser, r) ← pNat r
+  let (dts, r) ← pBool r
+  let (tsv, r) ← pInt r
+  let (ks, r) ← pHex r
+  let (vals, r) ← pValues r
+  pure (⟨cons, skip, vals, ps, pst, ser, dts, tsv, ks⟩, r)
+
+def pStmt : P GStmt := fun ws => do
+  let (id, r) ← pHex ws
+  let (st, r) ← pHex r
+  let (vals, r) ← pValues r
+  pure (⟨id, st, vals⟩, r)
+
+def pReq : P GReq
+  | "startup" :: r => do
+    let (m, r) ← pCounted pKV r
+    pure (GReq.startup m, r)
+  | "options" :: r => some (GReq.options, r)
+  | "auth" :: r => do
+    let (d, r) ← pOptB r
+    pure (GReq.authResponse d, r)
+  | "register" :: r => do
+    let (l, r) ← pCounted pHex r
+    pure (GReq.register l, r)
+  | "query" :: r => do
+    let (st, r) ← pHex r
+    let (p, r) ← pParams r
+    let (pl, r) ← pPayload r
+    pure (GReq.query st p pl, r)
+  | "prepare" :: r => do
+    let (st, r) ← pHex r
+    let (ks, r) ← pHex r
+    let (pl, r) ← pPayload r
+    pure (GReq.prepare st ks pl, r)
+  | "execute" :: r => do
+    let (id, r) ← pHex r
+    let (p, r) ← pParams r
+    let (pl, r) ← pPayload r
+    pure (GReq.execute id p pl, r)
+  | "batch" :: r => do
+    let (typ, r) ← pNat r
+    let (cons, r) ← pNat r
+    let (ser, r) ← pNat r
+    let (dts, r) ← pBool r
+    let (tsv, r) ← pInt r
+    let (stmts, r) ← pCounted pStmt r
+    let (pl, r) ← pPayload r
+    pure (GReq.batch typ stmts cons ser dts tsv pl, r)
+  | _ => none
+
+structure Hdr where
+  v : Nat
+  tracing : Bool
+  stream : Int
+
+def pHdrReq : P (Hdr × GReq) := fun ws => do
+  let (v, r) ← pNat ws
+  let (tr, r) ← pBool r
+  let (s, r) ← pInt r
+  let (g, r) ← pReq r
+  pure ((⟨v, tr, s⟩, g), r)
+
+def errName : Err → String
+  | .panicPayload => "payload"
+  | .panicKeyspace => "keyspace"
+  | .namedBatch => "namedbatch"
+  | .frameTooBig => "toobig"
+
+/-- unsigned lexicographic order on byte strings -/
+def bytesLe : Bytes → Bytes → Bool
+  | [], _ => true
+  | _ :: _, [] => false
+  | a :: x, b :: y => if a < b then true else if b < a then false else bytesLe x y
+
+def sortMap {β : Type} (m : List (Bytes × β)) : List (Bytes × β) :=
+  m.mergeSort (fun a b => bytesLe a.1 b.1)
+
+/-- maps are compared as maps: canonical (sorted) order -/
+def canonReq : Req → Req
+  | Req.startup m => Req.startup (sortMap m)
+  | Req.query s p pl => Req.query s p (sortMap pl)
+  | Req.prepare s k pl => Req.prepare s k (sortMap pl)
+  | Req.execute i p pl => Req.execute i p (sortMap pl)
+  | Req.batch t s c se ts ks pl => Req.batch t s c se ts ks (sortMap pl)
+  | r => r
+
+/-- the timestamp is always explicit in generated requests, so `now` is never used -/
+def now0 : Int := 0
+
+/-- FNV-1a (32 bit) -/
+def fnv (bs : Bytes) : Nat :=
+  bs.foldl (fun h b => ((h ^^^ b.toNat) * 16777619) % 4294967296) 2166136261
+
+def digest (bs : Bytes) : String :=
+  s!"len={bs.length} head={toHex (bs.take 40)} fnv={fnv bs}"
+
+def step (_ : Unit) (ws : List String) : Unit × String :=
+  ((), match ws with
+  | "enc" :: r =>
+    match pHdrReq r with
+    | some ((h, g), []) =>
+      match encodeReq h.v h.tracing h.stream now0 g with
+      | .ok bs => toHex bs
+      | .error e => "rejected:" ++ errName e
+    | _ => "bad-op"
+  | "encd" :: r =>
+    match pHdrReq r with
+    | some ((h, g), []) =>
+      match encodeReq h.v h.tracing h.stream now0 g with
+      | .ok bs => digest bs
+      | .error e => "rejected:" ++ errName e
+    | _ => "bad-op"
+  | "dec" :: fh :: r =>
+    match parseHex fh, pHdrReq r with
+    | some bs, some ((h, g), []) =>
+      let want := ask now0 g
+      if !Expressible h.v want then "inexpressible" else
+      match decodeReq bs with
+      | none => "mismatch:undecodable"
+      | some d =>
+        if d.version ≠ h.v then "mismatch:version"
+        else if d.tracing ≠ h.tracing then "mismatch:tracing"
+        else if d.stream ≠ h.stream then "mismatch:stream"
+        else if d.rest ≠ [] then "mismatch:rest"
+        else if canonReq d.req ≠ canonReq want then "mismatch:request"
+        else "ok"
+    | _, _ => "bad-op"
+  | "sess" :: _ => "ok"      -- session tier bookkeeping line: the harness reports setup / frame-count problems here
+  | _ => "bad-op")
+
 def init : Unit := ()
 end Driver.C03
